@@ -227,7 +227,18 @@ func TestWorker(t *testing.T) {
 			out.DetChecked++
 			if res2.Hash != res.Hash {
 				out.DetDiverged++
-				out.Trouble = append(out.Trouble, fmt.Sprintf("seed %d: NONDETERMINISM: trace hash %x vs %x", sc.Seed, res.Hash, res2.Hash))
+				msg := fmt.Sprintf("seed %d: NONDETERMINISM: trace hash %x vs %x", sc.Seed, res.Hash, res2.Hash)
+				if res.Log != nil && res2.Log != nil {
+					// where the two executions part
+					a, b := res.Log.Events, res2.Log.Events
+					for i := 0; i < len(a) && i < len(b); i++ {
+						if a[i].String() != b[i].String() {
+							msg += fmt.Sprintf("; first difference at event %d: %q vs %q", i, clipStr(a[i].String(), 160), clipStr(b[i].String(), 160))
+							break
+						}
+					}
+				}
+				out.Trouble = append(out.Trouble, msg)
 			}
 		}
 	}
